@@ -336,8 +336,16 @@ func genProgram(sc *Scenario) string {
 			form := (t*7 + i*3 + len(ops)) % 3 // receive form: comma-ok, plain, (select only) value discarded
 			switch op.K {
 			case "send":
+				if op.Ch < 0 {
+					fmt.Fprintf(&sb, "\t\tnilch <- 1\n\t\t%s\n", ret("true", "0", "-2"))
+					break
+				}
 				fmt.Fprintf(&sb, "\t\tc%d <- %s\n\t\t%s\n", op.Ch, mk(sc.Chans[op.Ch].Elem, op.Val), ret("true", "0", "-2"))
 			case "recv":
+				if op.Ch < 0 {
+					fmt.Fprintf(&sb, "\t\t<-nilch\n\t\t%s\n", ret("true", "0", "-2"))
+					break
+				}
 				es := sc.Chans[op.Ch].Elem
 				if form == 1 && es != 0 {
 					// plain receive: ok is what the value tells (sent values are never zero)
